@@ -10,11 +10,14 @@ MODEL_BASE = "c15_model"
 OCAML_DRIVER = "ocaml/c15_driver.ml"
 C_DRIVER = "harness/drivers/c15_driver.c"
 EXTRA_C = ["harness/c15_shim.c"]
-WRAPS = ["muggle_evloop_add_ctx", "close", "accept", "read", "write", "malloc", "free", "calloc", "realloc"]
+WRAPS = ["muggle_evloop_add_ctx", "close", "accept", "read", "write", "poll", "select", "epoll_wait",
+         "malloc", "free", "calloc", "realloc"]
 LINK_FLAGS = ["-Wl,--wrap=" + w for w in WRAPS]
 HEADER_LINES = 1
-CASE_TIMEOUT = 12.0
-MODEL_CASE_TIMEOUT = 30.0
+# no verdict depends on elapsed time: the driver waits for states (harness/drivers/c15_driver.c, BIG_WAIT) and marks a
+# case INCONCLUSIVE when a machine too loaded to make progress ends such a wait; the time-outs here only end real hangs
+CASE_TIMEOUT = 240.0
+MODEL_CASE_TIMEOUT = 120.0
 SHRINK_BUDGET = 60
 PROOF_TIMEOUT = 2400
 
@@ -26,6 +29,22 @@ def _sources():
 
 REPO_SOURCES = _sources()
 
+
+def build_impl(ctx):
+    """One driver for both kinds of scenario: linked with the deterministic scheduler (harness/vsched: atomics
+    hooked by forced include, pthread mutex / condvar / yield interposed).  Threads that the scheduler did not start
+    (every thread of the real-thread scenarios) see transparent hooks; the scheduled scenarios ("vs" cases) run
+    under it.  The waits of the loop thread and the event signal are interposed by harness/c15_shim.c."""
+    return V.build_vsched_driver(ID, C_DRIVER, REPO_SOURCES, extra_c=EXTRA_C, extra_wraps=WRAPS)
+
+
+_VS_LINE = re.compile(r"^(E \d+ |P \d+$|X \d+$)")
+
+
+def canon(lines):
+    """the scheduler's own event lines of a scheduled scenario are not part of the compared callback log"""
+    return [ln for ln in lines if not _VS_LINE.match(ln)]
+
 RULE = ("seeded random scenarios on real loopback TCP / UNIX sockets and real threads: 1..32 connections (accepted or "
         "handed over from another thread), random payload sizes and write fragmentation (TCP_NODELAY + yields), random "
         "server read-buffer sizes, client / server / worker-side close order, extra retains held by worker threads, "
@@ -35,8 +54,22 @@ RULE = ("seeded random scenarios on real loopback TCP / UNIX sockets and real th
         "is held in a callback) followed by data to each and a bounded wait for delivery; peers that write 1 byte .. "
         "several read buffers and close at once / reply after a local half-close / reset with data queued while the "
         "loop thread is held, so that data and hang-up arrive in one readiness report (AF_UNIX pairs, AF_UNIX and TCP "
-        "accepted, registered before or after); a callback that shuts another context down and exits; each on "
-        "select, poll and epoll; event-loop pipe: 1..8 writer threads, injected partial reads / writes / EAGAIN; "
+        "accepted, registered before or after); a callback that shuts another context down and exits; the user's wake "
+        "callback handing 1..2 contexts over itself on its 1st..3rd invocation (inside the back-end's wake-up handling, "
+        "after the queue was drained) followed by data and a bounded wait; each on select, poll and epoll.  Scheduled "
+        "scenarios (real loop, real eventfd, real back-end under the deterministic scheduler harness/vsched, the loop "
+        "thread's wait repeated with timeout 0): loop thread + creator + 1..4 handing threads (+ the wake callback "
+        "handing over), each hand-over followed by 0..200 bytes; a complete sweep placing another thread's "
+        "muggle_socket_evloop_add_ctx at every scheduling decision of the loop thread's first wake-up handling (as one "
+        "block, and split after each of its own points with 1..6 loop points in between) plus seeded random schedules "
+        "(switch density 15..90 %); every log contains the event signal's writes / reads and every wait of the loop "
+        "thread that found nothing ready.  Callback-presence x allocator matrix (14 x 3 x 3 back-ends): each optional "
+        "callback of the handle NULL alone / installed alone / all / none (without cb_msg on_read's default loop drains; "
+        "the shim logs its reads) x the harness's allocator, the library's default allocator (malloc / free interposed) "
+        "and a non-NULL pool object whose pointer every cb_alloc / cb_free call must be given, over a history that takes "
+        "every release path (on_close, on_clear, refused registration on the accept path); the random family also picks "
+        "the allocator.  No verdict depends on elapsed time (state-based waits; a wait nothing ends marks the case "
+        "INCONCLUSIVE = no verdict); event-loop pipe: 1..8 writer threads, injected partial reads / writes / EAGAIN / EINTR; "
         "non-trivial = the log contains a failure branch, a worker release, or a fragmented read; distinct = distinct log text")
 TRUSTED_BASE = [
     "modelled, not verified: kernel socket semantics (per-connection FIFO byte stream, EOF after the peer's close, "
@@ -48,14 +81,55 @@ TRUSTED_BASE = [
     "tie = trace inclusion: the extracted model replays the implementation's callback log (ocaml/c15_driver.ml); silent "
     "steps (a release that does not reach zero, leaving the run loop, on_wake taking / releasing the queue mutex) are "
     "inferred by the acceptor; the enqueue of a hand-over is placed between its 'hand' and 'handed' log lines",
-    "harness/c15_shim.c interposers (-Wl,--wrap) for muggle_evloop_add_ctx, close, accept, read, write, malloc family",
+    "harness/c15_shim.c interposers (-Wl,--wrap) for muggle_evloop_add_ctx, close, accept, read, write, malloc family, "
+    "and for poll / select / epoll_wait of the loop thread: the wait is first executed with timeout 0 under the log lock "
+    "('idle' iff nothing is ready; a non-empty result is returned as it is), signal reads / writes are executed and logged "
+    "under the same lock, so the order of the sigw / sigr / idle lines is the order of the system calls",
+    "modelled, not verified: the event signal as one flag (eventfd counter > 0; a write sets it, the clear-up read unsets "
+    "it), reported by the back-end's wait whenever it is set (select / poll level-triggered; epoll edge-triggered: every "
+    "write re-arms the report); a spurious report (clear-up with the flag unset) is allowed",
+    "scheduled scenarios: harness/vsched (one thread runs at a time, schedule in the case) with the shim's re-polled "
+    "wait; the driver is always linked with the scheduler, whose hooks are transparent for threads it did not start",
 ]
 ASSUMPTIONS = [
     "documented usage: every worker retain is paired with exactly one release; the thread whose release returns 0 "
-    "calls the release duty (user data, muggle_socket_ctx_close, free); contexts are handed over only while the "
-    "loop has not finished draining (no hand-over after run() returned); one reader on the pipe; callbacks do not block",
+    "calls the release duty (user data, muggle_socket_ctx_close, free); a context handed over after on_exit has drained "
+    "the queue stays queued and remains the caller's (the driver takes such a 'late' context back and the monitor accepts "
+    "that only when the hand-over was not complete before the loop was asked to leave); one reader on the pipe; "
+    "callbacks do not block; worker retains are generated only in configurations that install every callback",
 ]
 EVIDENCE_NOTES = [
+    "audit follow-up (a): verdicts no longer depend on elapsed time.  Every wait of the driver waits for a state: the "
+    "thing waited for happened, or the loop thread is QUIET (it sits in its back-end's wait and the very set it waits on "
+    "- saved by the shim - is asked again from the waiting thread with timeout 0, nothing consumed, and no TCP segment "
+    "of a live client connection is unacknowledged), or run() returned; await / sync / waitstall / waithand / waiteof / "
+    "burst / worker-retain / end-of-script all use it; a wait that none of these ends within 45 s marks the case "
+    "INCONCLUSIVE (monitor: no verdict, counted in the input distribution).  The only remaining time bounds detect "
+    "hangs of the code under test (run() not returning after an exit request: 90 s; pipe reader / writer stuck in a "
+    "library call: 45 s without any progress) and are reported as such.  Two genuine harness races found this way and "
+    "removed: (1) worker structures were initialised AFTER the loop thread was started, so a retain trigger with "
+    "threshold 0 firing in the first cb_add_ctx could have its reference wiped (false 'N allocated, N-1 freed', 2 in "
+    "400 runs, the flake reported by the audit; 0 in 1500 afterwards); (2) the acceptor placed an enqueue seen between "
+    "a clear-up and its cb_wake line before on_wake's silent drain (now decided by looking ahead for the context's "
+    "registration).  A hand-over that loses the race with the end of run() is taken back by the driver ('late', outside "
+    "the property) unless it was complete before the loop was asked to leave",
+    "audit follow-up (b): callback-presence x allocator matrix (gen_matrix) and model configuration [cbflags]; "
+    "all theorems quantify over the configuration, callbacks_follow_configuration is new.  Hand-made edits now caught: "
+    "close+free only inside if (cb_release); default handle_free not freeing; cb_free(NULL, ..) / cb_alloc(NULL) with a "
+    "non-NULL mempool; cb_conn skipped when cb_msg is missing; default drain loop reading once",
+    "audit follow-up (c): the pipe shim injects EINTR (nothing transferred) on reads and writes besides EAGAIN and "
+    "partial transfers; block_write failing on EINTR is caught (torn pointer: reader hang / pwfail).  EINTR on the read "
+    "side never reaches muggle_socket_evloop_pipe_read (muggle_ev_ctx_read retries it), so that branch is dead code; "
+    "hard errors after a partial write and read(2) returning 0 are still not driven",
+    "round 5: seeded change C15-9 (all three back-ends call muggle_ev_signal_clearup AFTER the wake callback: a hand-over "
+    "landing between on_wake's drain and the clear-up has its wake-up swallowed, the context stays queued, is never "
+    "announced and gets no bytes; at exit on_exit releases it, so ownership accounting stays clean) was missed: no "
+    "scenario handed a context over from inside cb_wake or from another thread inside that window, the monitor had no "
+    "liveness clause and the model started on_wake from idle without a signal.  Now: wake-callback hand-overs and a "
+    "scheduler-controlled window sweep, the monitor's 'idle' clause (a completed hand-over still queued / bytes "
+    "undelivered when the loop thread blocks), the signal / queue protocol in the model (handover_never_stranded, "
+    "loop_sleeps_only_without_completed_handover, wake_handling_clears_signal_first; the swapped order is refuted by "
+    "clearup_after_wake_callback_strands_handover) and trace acceptance of the sigw / sigr / idle lines",
     "on_wake is modelled in the repaired form of fixes/C14-add-ctx-failure.patch (registration failure => release_ctx, "
     "no cb_add_ctx); on the unchanged tree the monitor reports the leak and the acceptor rejects the addctx line",
     "observation (outside C15's statement): with the epoll back-end (edge-triggered) the accept loop returns after a "
@@ -100,10 +174,11 @@ def gen_socket(rng, name, be, tier, force=None):
     rbuf = rng.choice([1, 3, 7, 16, 64, 4096])
     workers = rng.choice([0, 1, 2, 3])
     seed = rng.below(1 << 30) + 1
+    alloc = rng.choice(["user", "user", "user", "user", "default", "pool"])
     lines = ["cfg be=%s fam=%s hints=%d pool=%d seed=%d rbuf=%d workers=%d" % (be, fam, hints, pool, seed, rbuf, workers)]
     # faults
     if force.get("faults", True):
-        if rng.chance(1, 4):
+        if alloc != "default" and rng.chance(1, 4):
             lines.append("fault alloc " + " ".join(str(rng.range(1, max(1, nconn))) for _ in range(rng.range(1, 2))))
         if rng.chance(1, 3):
             # index 1 is the listener's own registration
@@ -120,7 +195,8 @@ def gen_socket(rng, name, be, tier, force=None):
         rbuf = 4096          # keeps the number of logged read fragments (and the acceptor's work) bounded
     elif max(size.values()) > 2000:
         rbuf = max(rbuf, 64)
-    lines[0] = "cfg be=%s fam=%s hints=%d pool=%d seed=%d rbuf=%d workers=%d" % (be, fam, hints, pool, seed, rbuf, workers)
+    lines[0] = "cfg be=%s fam=%s hints=%d pool=%d seed=%d rbuf=%d workers=%d%s" % (
+        be, fam, hints, pool, seed, rbuf, workers, "" if alloc == "user" else " alloc=" + alloc)
     # triggers
     exit_conn = None
     mode = force.get("exit", rng.choice(["end", "end", "xmid", "trig", "handexit", "trig"]))
@@ -303,6 +379,137 @@ def gen_shutexit(rng, name, be, tier):
     return V.Case(name, lines + steps, {"kind": "sock", "be": be, "seed": seed})
 
 
+def gen_wakehand(rng, name, be, tier):
+    """Directed: the user's own wake callback hands a context over (an application serving its 'please add this
+    connection' requests from cb_wake).  The hand-over happens inside the back-end's wake-up handling, after on_wake
+    has drained the queue and released the mutex; its wake-up must survive the rest of that handling.  The script
+    waits for the connection to exist, sends to it and waits (bounded) for the delivery."""
+    fam = rng.choice(["tcp", "unix"])
+    seed = rng.below(1 << 30) + 1
+    nth = rng.choice([1, 1, 1, 2, 2, 3])
+    ks = [20]
+    ow = "%d:20" % nth
+    if rng.chance(1, 3):
+        # two hand-overs from the same invocation, or one more from a later invocation
+        ow += ",%d:21" % (nth if rng.chance(1, 2) else nth + 1)
+        ks.append(21)
+    # the directive sits in the header line: shrinking a failing case cannot drop it
+    lines = ["cfg be=%s fam=%s hints=64 pool=%d seed=%d rbuf=%d workers=1 onwake=%s" % (
+        be, fam, rng.choice([0, 1]), seed, rng.choice([3, 64, 4096]), ow)]
+    steps = []
+    # wake-ups number 2.. are produced by ordinary hand-overs from the script thread
+    for j in range(nth - 1):
+        steps += ["hand %d" % (30 + j), "send %d 4" % (30 + j), "await %d" % (30 + j)]
+    if rng.chance(1, 2):
+        steps.insert(0, "conn 0")
+        steps.insert(1, "send 0 6 1 5")
+    if rng.chance(1, 3):
+        lines.append("trig 20 %d retain 0" % rng.range(0, 4))
+    for k in ks:
+        steps.append("waithand %d" % k)
+    for k in rng.shuffle(ks):
+        n = rng.choice([1, 5, 64, 900])
+        steps.append("send %d %d %s" % (k, n, " ".join(map(str, _chunks(rng, n)))))
+    if rng.chance(1, 2):
+        steps.append("quiet")
+    for k in ks:
+        steps.append("await %d" % k)
+    if rng.chance(1, 2):
+        steps.append("hand 40")
+        steps.append("send 40 9 4 5")
+        steps.append("await 40")
+    for k in rng.shuffle(ks):
+        if rng.chance(1, 2):
+            steps.append("cclose %d" % k)
+    steps += ["sync", "wrel 0"]
+    return V.Case(name, lines + steps, {"kind": "sock", "be": be, "seed": seed})
+
+
+# scheduled scenarios: T0 creates the loop and hands context 0 over, T1 runs the loop, T2.. are handers.
+# Every operation (mutex lock / unlock, signal read / write, wait attempt, harness point) takes two scheduling
+# decisions (before and after it).  Measured on all three back-ends: T0 reaches its wait loop after 14 decisions,
+# a hander's whole hand-over takes 14, the loop thread's first wake-up handling (wait returns, clear-up, on_wake's
+# lock, registration, unlock, cb_wake, next wait) about 12; both constants leave a wide margin (further decisions are
+# spent on T0's wait loop / the sleeping loop thread's repeated wait and change nothing).
+VS_PREFIX = 24
+VS_WINDOW = 40
+
+
+def _vs_case(name, be, seed, nh, nbytes, gate, sched, onwake=()):
+    lines = ["vs be=%s hints=64 seed=%d rbuf=64 nh=%d bytes=%d gate=%d budget=30000%s" % (
+        be, seed, nh, nbytes, gate, (" onwake=" + ",".join("%d:%d" % nk for nk in onwake)) if onwake else "")]
+    lines.append("sched " + sched)
+    return V.Case(name, lines, {"kind": "vs", "be": be, "seed": seed})
+
+
+def vs_window_sched(k, j=None, m=0):
+    """T0 up to its wait loop; the loop thread k points into its wake-up handling; then the hander: all of its
+    hand-over at once (j None), or j points of it, m more points of the loop thread, and the rest."""
+    sl = [0] * VS_PREFIX + [1] * k
+    if j is None:
+        sl += [2] * 48
+    else:
+        sl += [2] * j + [1] * m + [2] * 48
+    return "list - " + " ".join(map(str, sl))
+
+
+def gen_windows(be, tier, tag=""):
+    """Deterministic sweep: another thread's muggle_socket_evloop_add_ctx lands at EVERY scheduling point of the loop
+    thread between the start of run() and the end of its first wake-up handling (poll return, signal clear-up, on_wake's
+    lock, registration of context 0, unlock, cb_wake, ...): as one block, and split after each of its own points
+    (lock, enqueue+unlock, signal write) with 1..3 loop points in between."""
+    out = []
+    for k in range(0, VS_WINDOW):
+        out.append(_vs_case("%sw-%s-k%d" % (tag, be, k), be, 11 + k, 1, 3, 1, vs_window_sched(k)))
+    dense = tier != "quick" or bool(tag)
+    if True:
+        for k in range(0, VS_WINDOW, 1 if dense else 4):
+            for j in (range(1, 14) if dense else (4, 8)):
+                for m in ((1, 2, 3, 4, 6) if dense else (2,)):
+                    out.append(_vs_case("%sw-%s-k%d-j%d-m%d" % (tag, be, k, j, m), be, 11 + k, 1, 3, 1,
+                                        vs_window_sched(k, j, m)))
+    return out
+
+
+def gen_vs_random(rng, name, be, tier):
+    nh = rng.choice([1, 1, 2, 2, 3, 4])
+    onwake = []
+    if rng.chance(1, 3):
+        onwake.append((rng.choice([1, 1, 2]), 20))
+    sched = "rand %d %d 0 0" % (rng.below(1 << 30), rng.choice([15, 40, 70, 90]))
+    return _vs_case(name, be, rng.below(1 << 30) + 1, nh, rng.choice([0, 1, 3, 200]), rng.choice([0, 1, 1]), sched, onwake)
+
+
+def gen_matrix(be):
+    """Callback-presence x allocator matrix: every optional callback of the handle (cb_conn, cb_msg - without it
+    on_read's default loop drains -, cb_close, cb_release, cb_add_ctx, cb_wake) NULL alone, installed alone, all, none;
+    x the allocator: the harness's (pool argument NULL), the library's DEFAULT alloc / free (nothing set; malloc and
+    free interposed), a non-NULL pool object that every cb_alloc / cb_free call has to be given back.  One fixed
+    history that goes through every release path: 0 accepted, read, closed by its peer (on_close); 1 handed over,
+    read, still open at exit (on_clear); 2 accepted but its registration is refused (accept path: cb_free + close);
+    3 handed over, gets a burst and its peer's close at once; 4 accepted, read, open at exit; bursts larger than the
+    default loop's buffer with a wait for their delivery; exit with everything quiet."""
+    out = []
+    variants = [ALL_CBS, "-"] + [ALL_CBS.replace(ch, "") for ch in ALL_CBS] + [ch for ch in ALL_CBS]
+    for vi, cb in enumerate(variants):
+        for ai, al in enumerate(("user", "default", "pool")):
+            fam = "unix" if (vi + ai) % 2 else "tcp"
+            seed = 1000 + 10 * vi + ai
+            lines = ["cfg be=%s fam=%s hints=64 pool=%d seed=%d rbuf=%d workers=0 cbs=%s alloc=%s" % (
+                be, fam, vi % 2, seed, [64, 3, 4096][ai], cb, al),
+                     "fault add 4:w"]      # add_ctx calls: 1 listener, 2 conn 0, 3 hand 1, 4 conn 2 (refused), 5 hand 3, 6 conn 4
+            # bursts of more than the default loop's 1024-byte buffer: without cb_msg on_read has to go on reading
+            # until the descriptor is drained (edge-triggered back-end: nobody reports the rest again), also when the
+            # burst comes together with the peer's close (context 3)
+            steps = ["conn 0", "sync", "hand 1", "sync", "send 0 7 3 4", "send 1 5", "sync", "cclose 0", "sync",
+                     "conn 2", "sync", "hand 3", "sync", "conn 4", "send 4 3", "send 1 2", "sync",
+                     "send 1 2600", "send 4 2100 1500 600", "await 1", "await 4",
+                     "send 3 1500", "cclose 3", "sync", "quiet"]
+            out.append(V.Case("m-%s-%s-%s" % (be, cb.replace("-", "none"), al), lines + steps,
+                              {"kind": "sock", "be": be, "seed": seed}))
+    return out
+
+
 def gen_pipe(rng, name, tier):
     w = rng.choice([1, 2, 3, 4, 8])
     per = rng.choice([1, 5, 20, 100, 600 if tier == "quick" else 3000])
@@ -339,6 +546,12 @@ def generate(rng, tier):
             cases.append(gen_hup(r, "u-%s-%d" % (be, i), be, tier))
         for i in range(3 if tier == "quick" else 12):
             cases.append(gen_shutexit(r, "x-%s-%d" % (be, i), be, tier))
+        for i in range(6 if tier == "quick" else 40):
+            cases.append(gen_wakehand(r, "k-%s-%d" % (be, i), be, tier))
+        cases += gen_matrix(be)
+        cases += gen_windows(be, tier)
+        for i in range(40 if tier == "quick" else 1500):
+            cases.append(gen_vs_random(r, "v-%s-%d" % (be, i), be, tier))
     r = rng.fork("pipe")
     for i in range(12 if tier == "quick" else 80):
         cases.append(gen_pipe(r, "p-%d" % i, tier))
@@ -356,6 +569,12 @@ def search(rng, diverging, tier):
             out.append(gen_hup(rng, "search-u-%s-%d" % (be, i), be, tier))
         for i in range(10):
             out.append(gen_shutexit(rng, "search-x-%s-%d" % (be, i), be, tier))
+        for i in range(12):
+            out.append(gen_wakehand(rng, "search-k-%s-%d" % (be, i), be, tier))
+        out += gen_matrix(be)
+        out += gen_windows(be, tier, tag="search-")
+        for i in range(200):
+            out.append(gen_vs_random(rng, "search-v-%s-%d" % (be, i), be, tier))
     for i in range(20):
         out.append(gen_pipe(rng, "search-p-%d" % i, tier))
     return out
@@ -379,13 +598,15 @@ def model_cases(cases, impl_results):
 
 class _Ctx:
     __slots__ = ("by", "conn", "handed", "reg", "ann", "closecb", "rel", "relby", "fdc", "free", "holds",
-                 "got", "eof", "shut", "loopheld", "wzero", "freed_line", "hand_at", "handed_at", "rderr")
+                 "got", "eof", "shut", "loopheld", "wzero", "freed_line", "hand_at", "handed_at", "rderr", "sig_at", "annpt")
 
     def __init__(self, by, conn):
         self.by, self.conn = by, conn
         self.handed = False
         self.hand_at = self.handed_at = None     # log lines of "hand" (before add_ctx) / "handed" (after it returned)
+        self.sig_at = None                       # log line of its wake-up write ("sigw <id>": enqueue done, signal written)
         self.reg = None
+        self.annpt = 0          # the announcement point was passed (cb_conn / cb_add_ctx ran, or is not installed)
         self.ann = self.closecb = self.rel = self.fdc = self.free = 0
         self.relby = None
         self.holds = {}
@@ -399,19 +620,31 @@ class _Ctx:
 
 
 DISPATCH_OPS = {"addctx", "accepterr", "accepted", "allocfail", "alloc", "conn", "msg", "rd", "shut", "retain",
-                "close", "exitreq", "wake", "stalled", "unstall", "halfclose"}
+                "close", "exitreq", "wake", "stalled", "unstall", "halfclose", "sigr", "idle"}
 LOOP_OPS = {"reg", "addctx", "accepterr", "accepted", "allocfail", "alloc", "conn", "free", "msg", "rd", "shut",
-            "retain", "close", "release", "exitreq", "wake", "stalled", "unstall", "halfclose"}
+            "retain", "close", "release", "exitreq", "wake", "stalled", "unstall", "halfclose", "sigr", "idle"}
+# lines only the script thread (or, in a scheduled scenario, a thread that is not pre-empted between the line and
+# the call it announces) writes: one of them after a "send" line means that send has returned
+SCRIPT_OPS = {"send", "cclose", "creset", "cconn", "cfail", "sendfail", "await", "xexit", "quiet"}
 
 
 def monitor(case, lines):
     if not lines:
         return "no output"
+    # a wait of the harness that nothing ended (machine too loaded, or a harness defect): no verdict, never a violation
+    if any(ln.startswith("INCONCLUSIVE") for ln in lines):
+        return None
+    if case.lines and case.lines[0].startswith("pipe"):
+        for ln in lines:
+            if ln.startswith(("HANG", "LOGOVERFLOW", "SETUPFAIL", "EXN")):
+                return "driver reported: " + ln
+        return _monitor_pipe(case, lines)
+    lines = canon(lines)
     for ln in lines:
         if ln.startswith(("HANG", "LOGOVERFLOW", "SETUPFAIL", "EXN")):
             return "driver reported: " + ln
-    if case.lines and case.lines[0].startswith("pipe"):
-        return _monitor_pipe(case, lines)
+        if ln.startswith(("DEADLOCK", "LIVELOCK")):
+            return "scheduled scenario did not finish: " + ln
     return _monitor_sock(case, lines)
 
 
@@ -457,14 +690,23 @@ def _check_f(ln):
         v = _kv(ln, key)
         if v is not None and int(v) != 0:
             return "accounting at exit: %s=%s (%s)" % (key, v, ln)
-    a, f = _kv(ln, "alloc"), _kv(ln, "freed")
-    if a is not None and a != f:
-        return "accounting at exit: %s contexts allocated, %s freed" % (a, f)
+    a, f, lt = _kv(ln, "alloc"), _kv(ln, "freed"), _kv(ln, "late", "0")
+    if a is not None and int(a) != int(f) + int(lt):
+        return "accounting at exit: %s contexts allocated, %s freed (+ %s taken back after a late hand-over)" % (a, f, lt)
     return None
+
+
+ALL_CBS = "cmlraw"       # cb_conn cb_msg cb_close(l) cb_release cb_add_ctx cb_wake
+
+
+def _cbs(case):
+    v = _kv(case.lines[0], "cbs") if case.lines else None
+    return set(ALL_CBS) if v is None else set(v.replace("-", ""))
 
 
 def _monitor_sock(case, lines):
     seed = int(_kv(case.lines[0], "seed", "1"))
+    F = _cbs(case)           # which optional callbacks of the handle this case installs
     ctxs = {}
     sent = {}          # conn -> bytearray logged as sent so far
     exiting = False          # an exit request was logged
@@ -474,6 +716,10 @@ def _monitor_sock(case, lines):
     seenF = 0
     wakes = []               # log lines of cb_wake = ends of on_wake
     peer_closed, peer_reset = set(), set()     # connections whose client end closed gracefully / with a reset
+    sent_done = {}           # conn -> bytes whose send() has returned (a later line of the sending side exists)
+    send_open = None         # conn of the last "send" line not yet known to have returned
+    vs = bool(case.lines) and case.lines[0].startswith("vs ")
+    leave_at = None          # first line showing that the loop was asked to leave / has left its run loop
 
     def bad(n, msg):
         return "line %d (%s): %s" % (n, lines[n], msg)
@@ -491,13 +737,27 @@ def _monitor_sock(case, lines):
             continue
         if op == "badclose":
             return bad(n, "close() failed: descriptor closed twice or never open")
+        if op in SCRIPT_OPS and send_open is not None:
+            sent_done[send_open] = len(sent.get(send_open, b""))
+            send_open = None
         if returned and op in LOOP_OPS:
             return bad(n, "loop-thread activity after muggle_evloop_run returned")
         if clearing and op in DISPATCH_OPS:
             return bad(n, "dispatch callback after the run loop started clearing its contexts")
         cid = None
+        if op == "sigw" and w[1] == "x":
+            continue
+        if op == "sigwfail":
+            return bad(n, "the wake-up write to the event signal failed")
+        if op == "badpool":
+            return bad(n, "cb_alloc / cb_free was called with a pool argument that is not the one given to "
+                          "muggle_socket_evloop_handle_set_alloc_free")
+        cbletter = {"conn": "c", "msg": "m", "close": "l", "release": "r", "addctx": "a", "wake": "w"}.get(op)
+        if cbletter is not None and cbletter not in F:
+            return bad(n, "callback invoked although the case did not install it")
         if op in ("hand", "handed", "reg", "addctx", "alloc", "conn", "free", "msg", "rd", "shut", "retain", "close", "release",
-                  "wrel", "wrelease", "wfree", "wshut", "halloc", "fdclose", "accepterr", "halfclose"):
+                  "wrel", "wrelease", "wfree", "wshut", "halloc", "fdclose", "accepterr", "halfclose", "sigw", "late", "latefree",
+                  "conn0", "addctx0"):
             if w[1] == "new":
                 continue
             try:
@@ -521,10 +781,10 @@ def _monitor_sock(case, lines):
                 return bad(n, "unknown context")
             # "handed" only records that muggle_socket_evloop_add_ctx has returned in the handing thread: the loop
             # may already have registered, closed and freed the context by then
-            if op != "handed" and c.free and not (op == "fdclose" and c.by == "accept" and c.reg == -1 and c.fdc == 0):
+            if op not in ("handed", "sigw") and c.free and not (op == "fdclose" and c.by == "accept" and c.reg == -1 and c.fdc == 0):
                 return bad(n, "context used after it was freed (freed at line %s)" % c.freed_line)
             if c.rel and op in ("msg", "rd", "close", "addctx", "conn", "retain", "shut", "halfclose", "reg", "hand", "release",
-                                "wrelease", "wshut", "wrel"):
+                                "wrelease", "wshut", "wrel", "conn0", "addctx0"):
                 return bad(n, "context used after release")
         if op == "hand":
             if c.by != "user" or c.handed:
@@ -535,6 +795,51 @@ def _monitor_sock(case, lines):
             if not c.handed or c.handed_at is not None:
                 return bad(n, "hand-over completed twice or never started")
             c.handed_at = n
+        elif op == "late":
+            # still in the hand-over queue after run() returned; the driver (its owner) takes it back.  Legitimate only
+            # for a hand-over that lost the race with the end of the loop: one that was complete before the loop was
+            # asked to leave (or started clearing) had to be released by on_exit
+            if c.by != "user" or not c.handed or c.reg is not None or c.rel:
+                return bad(n, "context reported as still queued although it was registered / released / never handed over")
+            if not returned:
+                return bad(n, "hand-over queue inspected before muggle_evloop_run returned")
+            done_at = c.sig_at if c.sig_at is not None else c.handed_at
+            if done_at is not None and leave_at is not None and done_at < leave_at:
+                return bad(n, "context %d was handed over (line %d) before the loop was asked to leave (line %d) and is still "
+                              "queued after muggle_evloop_run returned: on_exit did not release it" % (cid, done_at, leave_at))
+            c.rel, c.relby, c.loopheld = 1, "late", 0
+        elif op == "latefree":
+            if c.relby != "late" or not c.fdc or c.free:
+                return bad(n, "late context freed out of order")
+            c.free = 1
+            c.freed_line = n
+        elif op == "sigw":
+            # the wake-up write of this context's hand-over: enqueued and signalled from here on
+            if not c.handed or c.sig_at is not None:
+                return bad(n, "wake-up write of a hand-over that was not started / written twice")
+            c.sig_at = n
+        elif op == "idle":
+            # LIVENESS: the loop thread's wait found nothing ready and it blocks.  Every hand-over whose wake-up
+            # was written before this point has been taken from the queue (registered + announced, or released
+            # when its registration failed), and every byte whose send() had returned before this point and that
+            # went to a registered, open, handed-over context has been given to cb_msg.
+            if not clearing and not returned:
+                for d, x in sorted(ctxs.items()):
+                    if x.by != "user" or not x.handed:
+                        continue
+                    done_at = x.sig_at if x.sig_at is not None else x.handed_at
+                    if done_at is not None and x.reg is None and not x.rel:
+                        return bad(n, "lost wake-up: context %d was handed over (enqueued and wake-up written at line %d) "
+                                      "and is still queued - not registered, never announced - while the loop thread goes to "
+                                      "sleep with nothing ready" % (d, done_at))
+                    if x.reg == 0 and not x.annpt:
+                        return bad(n, "context %d is registered but was not announced before the loop thread went to sleep" % d)
+                    if (x.reg == 0 and x.annpt and x.conn is not None and not x.shut and not x.closecb and not x.rel
+                            and not x.rderr and not x.eof and x.conn not in peer_reset
+                            and len(x.got) < sent_done.get(x.conn, 0)):
+                        return bad(n, "context %d (handed over, registered, open): %d of the %d bytes written to it are not "
+                                      "delivered although the loop thread goes to sleep with nothing ready" % (
+                                          d, sent_done.get(x.conn, 0) - len(x.got), sent_done.get(x.conn, 0)))
         elif op == "wake":
             # on_wake drains the whole queue: a context whose hand-over had returned before the previous
             # on_wake ended was in the queue when this on_wake took the mutex
@@ -549,7 +854,7 @@ def _monitor_sock(case, lines):
             k, got_, sent_ = int(w[1]), int(w[2]), int(w[3])
             if got_ < sent_ and not exiting and not clearing and not returned:
                 for d, x in sorted(ctxs.items()):
-                    if x.conn == k and (x.by == "user" or x.ann) and x.reg != -1 and not x.shut and not x.closecb and not x.rel:
+                    if x.conn == k and (x.by == "user" or x.annpt) and x.reg != -1 and not x.shut and not x.closecb and not x.rel:
                         return bad(n, "context %d (%s): %d of %d bytes sent to it were not delivered while the loop was "
                                       "running (registered=%s announced=%d)" % (
                                           d, "handed over" if x.by == "user" else "accepted", sent_ - got_, sent_, x.reg, x.ann))
@@ -574,11 +879,27 @@ def _monitor_sock(case, lines):
             if (op == "addctx") != (c.by == "user"):
                 return bad(n, "wrong announcement callback for this context")
             c.ann = 1
+            c.annpt = 1
             if op == "conn":
                 c.conn = int(w[2]) if int(w[2]) >= 0 else None
+        elif op in ("addctx0", "conn0"):
+            # the registration succeeded and the announcement callback of this path is not installed: the point
+            # where it would have run (logged by the harness right after muggle_evloop_add_ctx returned 0)
+            if ("a" if op == "addctx0" else "c") in F:
+                return bad(n, "registration not followed by its announcement callback although it is installed")
+            if c.annpt:
+                return bad(n, "announcement point passed twice")
+            if c.reg != 0:
+                return bad(n, "announcement point of a context whose registration %s" % (
+                    "failed" if c.reg is not None else "has not happened"))
+            if (op == "addctx0") != (c.by == "user"):
+                return bad(n, "wrong announcement path for this context")
+            c.annpt = 1
+            if op == "conn0":
+                c.conn = int(w[2]) if int(w[2]) >= 0 else None
         elif op in ("msg", "rd", "shut", "retain", "halfclose"):
-            if not c.ann:
-                return bad(n, "callback on a context that was never announced")
+            if not c.annpt:
+                return bad(n, "callback on / read of a context that was never announced")
             if c.closecb:
                 return bad(n, "callback after cb_close")
             if op == "rd":
@@ -622,11 +943,13 @@ def _monitor_sock(case, lines):
                 return bad(n, "released twice")
             if sum(c.holds.values()) > 0:
                 return bad(n, "cb_release while a worker still holds a reference")
-            if not (c.closecb or c.reg == -1):
+            if not (c.closecb or c.reg == -1) and "l" in F:
                 # on_clear / on_exit: the run loop has ended (exit request, or a back-end error)
                 if not (c.reg == 0 or c.handed):
                     return bad(n, "cb_release of a context the loop never owned")
                 clearing = True
+                if leave_at is None:
+                    leave_at = n
             if c.loopheld == 0:
                 return bad(n, "loop released a context it no longer owned")
             c.rel, c.relby, c.loopheld = 1, "loop", 0
@@ -636,7 +959,7 @@ def _monitor_sock(case, lines):
                 return bad(n, "worker releases a context it does not hold")
             c.holds[wk] -= 1
             others = sum(c.holds.values())
-            if c.loopheld == 1 and (exiting or clearing or c.closecb or returned):
+            if c.loopheld == 1 and (exiting or clearing or c.closecb or returned or "l" not in F):
                 # the loop's own (silent) release may or may not have happened: the value tells
                 if r == others:
                     c.loopheld = 0
@@ -657,6 +980,20 @@ def _monitor_sock(case, lines):
         elif op == "fdclose":
             if c.fdc:
                 return bad(n, "descriptor closed twice")
+            if ("r" not in F and not c.rel and not c.wzero and c.relby is None
+                    and not (c.by == "accept" and c.reg == -1 and not c.annpt)):
+                # no cb_release installed: the loop side's release point shows only through the close that follows it
+                if sum(c.holds.values()) > 0:
+                    return bad(n, "loop side closes the descriptor while a worker still holds a reference")
+                if c.loopheld == 0:
+                    return bad(n, "loop released a context it no longer owned")
+                if "l" in F and not c.closecb and c.reg != -1:
+                    if not (c.reg == 0 or c.handed):
+                        return bad(n, "release of a context the loop never owned")
+                    clearing = True
+                    if leave_at is None:
+                        leave_at = n
+                c.rel, c.relby, c.loopheld = 1, "loop", 0
             if not (c.rel or (c.by == "accept" and c.reg == -1 and c.free)):
                 return bad(n, "descriptor closed before release")
             c.fdc = 1
@@ -681,12 +1018,18 @@ def _monitor_sock(case, lines):
             if b != exp:
                 return bad(n, "driver sent bytes that are not the scripted payload")
             cur += b
+            if vs:
+                sent_done[k] = len(cur)        # no pre-emption between the line and the write of a scheduled thread
+            else:
+                send_open = k
         elif op == "cclose":
             peer_closed.add(int(w[1]))
         elif op == "creset":
             peer_reset.add(int(w[1]))
         elif op in ("exitreq", "xexit"):
             exiting = True
+            if leave_at is None:
+                leave_at = n
         elif op == "returned":
             returned = True
     if not returned:
@@ -699,7 +1042,7 @@ def _monitor_sock(case, lines):
                 cid, c.by, c.conn, c.reg, c.ann, c.closecb, c.rel)
         if c.fdc != 1:
             return "context %d: descriptor never closed" % cid
-        if c.ann and c.rel != 1:
+        if c.annpt and c.rel != 1:
             return "context %d announced but never released" % cid
         if sum(c.holds.values()) != 0:
             return "context %d: worker hold outstanding at the end" % cid
@@ -708,9 +1051,35 @@ def _monitor_sock(case, lines):
 
 # --------------------------------------------------------------------------
 
+def _sig_windows(lines):
+    """hand-over wake-ups written (a) inside a wake-up handling (between its clear-up and its cb_wake), (b) after
+    cb_wake and before the loop thread's next clear-up / empty wait"""
+    inside = after = 0
+    state = 0        # 0 outside, 1 between sigr and wake, 2 after wake
+    for l in lines:
+        w = l.split()
+        if not w:
+            continue
+        if w[0] == "sigr":
+            state = 1
+        elif w[0] == "wake":
+            state = 2
+        elif w[0] == "idle":
+            state = 0
+        elif w[0] == "sigw" and w[1] != "x":
+            if state == 1:
+                inside += 1
+            elif state == 2:
+                after += 1
+    return inside, after
+
+
 def nontrivial_key(case, lines):
+    lines = canon(lines)
     t = "\n".join(lines)
     if any(k in t for k in ("allocfail", " -1", "wrel ", "accepterr", "R again", "stalled")) or len(lines) > 40:
+        return t
+    if sum(_sig_windows(lines)) > 0:
         return t
     return None
 
@@ -723,9 +1092,31 @@ def tally(dist, case, lines):
         inc("pipe_cases")
         inc("pipe_pointers", sum(1 for l in lines if l.startswith("pr ")))
         inc("pipe_partial_reads", sum(1 for l in lines if l.startswith("R ") and len(l) < 18))
+        inc("pipe_eintr_injected", sum(1 for l in lines if l.endswith(" intr")))
+        if any(l.startswith("INCONCLUSIVE") for l in lines):
+            inc("inconclusive_cases_no_verdict")
         return
+    lines = canon(lines)
+    if any(l.startswith("INCONCLUSIVE") for l in lines):
+        inc("inconclusive_cases_no_verdict")
+    inc("late_handovers_taken_back", sum(1 for l in lines if l.startswith("late ")))
     inc("backend=%s" % _kv(head, "be"))
-    inc("family=%s" % _kv(head, "fam"))
+    if head.startswith("vs "):
+        inc("scheduled_scenarios")
+    else:
+        inc("family=%s" % _kv(head, "fam"))
+    if " onwake=" in head:
+        inc("wake_callback_handover_cases")
+    if " cbs=" in head:
+        inc("callback_matrix_cases")
+        for ch in ALL_CBS:
+            if ch not in _cbs(case):
+                inc("cases_without_cb_%s" % {"c": "conn", "m": "msg", "l": "close", "r": "release", "a": "add_ctx", "w": "wake"}[ch])
+    inc("allocator=%s" % (_kv(head, "alloc") or "user"))
+    a, b = _sig_windows(lines)
+    inc("handover_wakeups_inside_a_wake_handling", a)
+    inc("handover_wakeups_after_wake_callback_before_next_wait", b)
+    inc("loop_sleeps_observed", sum(1 for l in lines if l == "idle"))
     nregs, users = 0, set()
     for l in lines:
         w = l.split()
@@ -770,11 +1161,17 @@ MANIFEST = {
                    "stream, cb_close / cb_release / descriptor close / free happen at most once and free only at count "
                    "zero, nothing touches a released context, every context is freed once the loop has returned and the "
                    "workers have released; on_wake cannot end before the hand-over queue is empty and takes it in queue "
-                   "order, however many add_ctx calls coalesced into the wake-up; a hang-up closes an unflagged context only "
+                   "order, however many add_ctx calls coalesced into the wake-up; for every interleaving a queued context has "
+                   "its signaller in flight, or the event signal set, or a wake-up handling in progress that has cleared "
+                   "the signal and not yet drained the queue, or the loop leaving (on_exit drains), hence the loop thread "
+                   "never blocks with a completed hand-over still queued, while the variant that clears the signal after "
+                   "the wake callback is refuted; a hang-up closes an unflagged context only "
                    "after every byte the peer sent was handed to cb_msg; the pipe delivers exactly the completed "
                    "writes in lock order. Tied to the "
-                   "code by trace inclusion of the real callback log (loopback TCP / UNIX sockets, real threads, "
-                   "ASan) in the extracted model, plus an independent ownership / byte-equality / accounting monitor."),
+                   "code by trace inclusion of the real callback log (loopback TCP / UNIX sockets, real threads, and "
+                   "scheduler-controlled window sweeps; signal writes / reads and the loop thread's empty waits are part "
+                   "of the log; ASan) in the extracted model, plus an independent ownership / byte-equality / accounting / "
+                   "no-lost-wake-up monitor."),
     "design_ref": "DESIGN.md section 6 / C15",
     "level_note": ("Trusted: Coq kernel, extraction, the trace acceptor and harness; kernel socket/pipe semantics and the "
                    "back-ends' readiness are an oracle; counter atomicity is C04's theorem."),
@@ -791,10 +1188,9 @@ def extra_violations(ctx, stats):
     (context freed while held / never freed)."""
     import os
     import props.c04 as C4
-    exe = V.build_vsched_driver(ID, C4.C_DRIVER, C4.REPO_SOURCES, out_name="refcnt_driver",
-                                extra_c=[getattr(C4, "ATOMICS_C")] if hasattr(C4, "ATOMICS_C") else ())
+    exe = C4.build_driver(ID, out_name="refcnt_driver")
     cases = [c for c in C4.generate(ctx.rng.fork("refcnt"), ctx.tier) if c.lines[0].startswith("refcnt")]
-    res = V.run_batch(exe, cases, per_case_timeout=5.0)
+    res = V.run_batch(exe, cases, per_case_timeout=120.0)
     out = []
     for c in cases:
         r = res.get(c.name)
